@@ -311,8 +311,10 @@ def run(tier, seed, replay=None):
         steps = []
         for _ in range(dr.randint(1, 4)):
             pos = (["j", "k", "0", "$", "w", "b"][dr.randrange(6)] if dr.random() < 0.3 else "%d|" % dr.randint(1, 24))
-            mot = dr.choice(["%", "%", "%", "[(", "])", "[{", "]}"])
+            mot = dr.choice(["%", "%", "%", "[(", "])", "[{", "]}", "i(", "a(", "i[", "a]", "i{", "a}", "i<", "a>", "ib", "aB"])
             op = dr.choice(["", "", "d", "y", "c", "g~", '"ad', "v"])
+            if mot[0] in "ia" and op == "":
+                op = "d"
             steps.append(pos)
             steps.append(op + mot + ("X<esc>" if op == "c" else "d" if op == "v" else ""))
         cases.append({"text": text, "steps": steps, "regs": {}, "cursor": 0})
@@ -501,6 +503,12 @@ def run(tier, seed, replay=None):
                     xreqs.append({"op": "unmatched", "gs": gs, "cur": t["cur"]["value"], "excl": t["cur"]["exclusive"],
                                   "opener": oc[0], "closer": oc[1], "fwd": mm.group(3) == "Forward"})
                     xmeta.append((c, t, "unmatched", None))
+                mm = re.search(r"motion=Some\(MotionCmd\((\d+), TextObj\((Paren|Brace|Bracket|Angle)\((Inside|Around)\)\)\)\) flags=", t["cmd"])
+                if mm:
+                    oc = {"Paren": "()", "Brace": "{}", "Bracket": "[]", "Angle": "<>"}[mm.group(2)]
+                    xreqs.append({"op": "textobj_delim", "gs": gs, "cur": t["cur"]["value"], "excl": t["cur"]["exclusive"], "ws": [is_ws(g) for g in gs],
+                                  "opener": oc[0], "closer": oc[1], "around": mm.group(3) == "Around"})
+                    xmeta.append((c, t, "textobj_delim", None))
                 mm = re.search(r"motion=Some\(MotionCmd\((\d+), TextObj\(Word\((Normal|Big), (Inside|Around)\)\)\)\) flags=", t["cmd"])
                 if mm:
                     xreqs.append({"op": "textobj_word", "cls": [4 if g == "\n" else cls(g) for g in gs], "cur": t["cur"]["value"], "big": mm.group(2) == "Big", "around": mm.group(3) == "Around"})
